@@ -4,7 +4,10 @@ package casper
 // (ii)  VerifC17SupLink: a block-carried sup link with arbitrary (forged)
 //       signature bytes in all ten slots goes through the real
 //       validVerificationsFromSupLink: only slots of effective validators of
-//       the parent epoch whose signature verifies become verifications.
+//       the TARGET'S PARENT epoch (also for a skip link whose source epoch has
+//       another validator set) whose signature verifies over the documented
+//       digest sha3(source hash || target hash) become verifications, and
+//       every genuine such signature does.
 // (iii) VerifC17Step: one verification message from an arbitrary sender for an
 //       arbitrary source/target applied to an arbitrary checkpoint state with
 //       the real convertVerification + authVerification (the body of
@@ -15,7 +18,9 @@ package casper
 //verif:property C17
 //verif:bound SupLink: n = 1..3 effective validators (quick), 4..6 (thorough); each validator slot (< n) of the carried link independently empty, the validator's genuine signature, or 64 arbitrary (forged) bytes; every unused slot (>= n) empty or 1 arbitrary byte; link source height arbitrary
 //verif:bound Step: n = 1..3 validators (quick), 4..6 (thorough); tree R -> {A -> T, B}; source any of R (grandparent), A (direct parent), B (fork sibling), X (stored checkpoint below the root, not in the tree); statuses of A, B, T, X arbitrary (T also Growing), R justified or finalized; existing link source->T with arbitrary occupancy of the n validator slots; sender = any of the n validators (genuine signature or 64 arbitrary bytes) or a non-validator key (64 arbitrary bytes)
-//verif:assume validators of the parent epoch = n keys with distinct vote tallies above MinValidatorVoteNum (mainnet), so Order i belongs to key i; signature slots of orders >= n are empty in checkpoint links (VerifC17SupLink decides that only effective-validator slots are ever written)
+//verif:bound validator sets differ per epoch: the target's parent epoch has keys 0..n-1 (Order i = key i); every other checkpoint (source R of the skip link R->T, fork B, X below the root) has key 9 (Order 0) and keys n-1..1 in reverse ranking; Step senders: the n validators of the target's parent epoch, a key that is a validator nowhere, and key 9 (validator of the other epochs only); SupLink: link from the direct parent A or skip link from R
+//verif:assume the embedded "genuine" signatures are the keys' real signatures over sha3-256(source hash || target hash) built in the harness independently of verification.encodeMessage (verifAssume on the harness' own digest + XPub.Verify; checked with real ed25519 in native and validation runs)
+//verif:assume validators of an epoch = keys with distinct vote tallies above MinValidatorVoteNum (mainnet); signature slots of orders >= n are empty in checkpoint links (VerifC17SupLink decides that only effective-validator slots are ever written)
 //verif:assume signature validity (XPub.Verify) is an uninterpreted predicate of (key, message, signature) for the solver; sha3 is an uninterpreted collision-free function; the native replay runs the real functions
 //verif:assume the store finds the checkpoints of the state by hash and by height (harness mock of state.Store), block headers exist for saveVerificationToHeader, the message queue accepts every post
 //verif:outside persistence across restart (database/store_checkpoint.go loadCheckpointsFromIter merges header sup links through LevelDB + JSON); AuthVerification's verification cache for unknown targets and tryRollback (channels); ApplyBlock's transaction processing
@@ -25,10 +30,14 @@ package casper
 //verif:obligation fn=VerifC17Step args=4;5;6 tier=thorough mode=int secs=3000
 
 import (
+	"encoding/binary"
 	"encoding/hex"
 	"errors"
 
+	"golang.org/x/crypto/sha3"
+
 	"github.com/bytom/bytom/consensus"
+	"github.com/bytom/bytom/crypto/ed25519/chainkd"
 	"github.com/bytom/bytom/database/storage"
 	"github.com/bytom/bytom/protocol/bc"
 	"github.com/bytom/bytom/protocol/bc/types"
@@ -121,6 +130,8 @@ type verifC17Queue struct{ posted int }
 
 func (q *verifC17Queue) Post(interface{}) error { q.posted++; return nil }
 
+// verifC17Votes: the validator set of the TARGET'S PARENT epoch: keys 0..n-1,
+// Order i = key i.
 func verifC17Votes(n int) map[string]uint64 {
 	votes := map[string]uint64{}
 	for i := 0; i < n; i++ {
@@ -129,6 +140,38 @@ func verifC17Votes(n int) map[string]uint64 {
 	// a key below the threshold is never a validator
 	votes[verifC17Keys[10]] = consensus.ActiveNetParams.MinValidatorVoteNum - 1
 	return votes
+}
+
+// verifC17OldVotes: the validator set of every OTHER epoch (the source of a
+// skip link, the fork sibling, the checkpoint below the root). It differs from
+// the target's parent epoch: key 9 is a validator only here (Order 0), key 0 is
+// not a validator here, and the shared keys 1..n-1 have the reverse ranking
+// (key n-1 has Order 1, ..., key 1 has Order n-1).
+func verifC17OldVotes(n int) map[string]uint64 {
+	votes := map[string]uint64{}
+	votes[verifC17Keys[9]] = consensus.ActiveNetParams.MinValidatorVoteNum + 200
+	for i := 1; i < n; i++ {
+		votes[verifC17Keys[i]] = consensus.ActiveNetParams.MinValidatorVoteNum + uint64(100+i)
+	}
+	return votes
+}
+
+// verifC17Valid decides, independently of verification.encodeMessage /
+// verifySignature, whether sig is key's signature over the documented digest
+// sha3-256(source hash || target hash) (each hash = V0..V3 big endian).
+func verifC17Valid(key string, source, target bc.Hash, sig []byte) bool {
+	var buf [64]byte
+	for i, w := range []uint64{source.V0, source.V1, source.V2, source.V3, target.V0, target.V1, target.V2, target.V3} {
+		binary.BigEndian.PutUint64(buf[8*i:], w)
+	}
+	digest := sha3.Sum256(buf[:])
+	raw, err := hex.DecodeString(key)
+	if err != nil || len(raw) != 64 {
+		return false
+	}
+	var xpub chainkd.XPub
+	copy(xpub[:], raw)
+	return xpub.Verify(digest[:], sig)
 }
 
 func verifC17Status(name string, lo, hi state.CheckpointStatus) state.CheckpointStatus {
@@ -143,13 +186,22 @@ func verifC17Status(name string, lo, hi state.CheckpointStatus) state.Checkpoint
 func VerifC17SupLink(n int) {
 	e0 := verifU64("rootEpoch")
 	verifAssume(e0 < 1<<32)
-	src := &state.Checkpoint{Height: e0 * 100, Hash: bc.Hash{V0: 2, V1: 0xc17}, Status: state.Justified, Votes: verifC17Votes(n)}
-	tgt := &state.Checkpoint{Height: (e0 + 1) * 100, Hash: bc.Hash{V0: 4, V1: 0xc17}, ParentHash: src.Hash, Parent: src, Status: state.Unjustified}
-	root := &treeNode{Checkpoint: src}
-	root.children = []*treeNode{{Checkpoint: tgt}}
-	c := &Casper{store: &verifC17Store{cps: []*state.Checkpoint{src, tgt}}, tree: root, msgQueue: &verifC17Queue{}}
+	R := &state.Checkpoint{Height: e0 * 100, Hash: bc.Hash{V0: 1, V1: 0xc17}, Status: state.Justified, Votes: verifC17OldVotes(n)}
+	A := &state.Checkpoint{Height: (e0 + 1) * 100, Hash: bc.Hash{V0: 2, V1: 0xc17}, ParentHash: R.Hash, Parent: R, Status: state.Justified, Votes: verifC17Votes(n)}
+	tgt := &state.Checkpoint{Height: (e0 + 2) * 100, Hash: bc.Hash{V0: 4, V1: 0xc17}, ParentHash: A.Hash, Parent: A, Status: state.Unjustified, Votes: verifC17OldVotes(n)}
+	nA := &treeNode{Checkpoint: A, children: []*treeNode{{Checkpoint: tgt}}}
+	root := &treeNode{Checkpoint: R, children: []*treeNode{nA}}
+	c := &Casper{store: &verifC17Store{cps: []*state.Checkpoint{R, A, tgt}}, tree: root, msgQueue: &verifC17Queue{}}
 
+	// the link comes from the direct parent A (sigs column 0) or is a skip link
+	// from R (column 1), whose epoch has a different validator set
+	srcIdx := verifChoice("source", 2)
+	src := A
+	if srcIdx == 1 {
+		src = R
+	}
 	link := &types.SupLink{SourceHeight: verifU64("linkSourceHeight"), SourceHash: src.Hash}
+	var genuine [consensus.MaxNumOfValidators]bool
 	for i := 0; i < consensus.MaxNumOfValidators; i++ {
 		if i >= n {
 			link.Signatures[i] = verifBytes("junk", 1) // unused slot: empty or one arbitrary byte
@@ -157,7 +209,11 @@ func VerifC17SupLink(n int) {
 		}
 		switch verifChoice("slotKind", 3) {
 		case 1:
-			link.Signatures[i] = verifC17Genuine(i, 0) // the validator's real signature on this link
+			// the real signature of the validator with Order i in the target's parent epoch
+			link.Signatures[i] = verifC17Genuine(i, srcIdx)
+			genuine[i] = true
+			// it is genuine over the documented digest (real ed25519 in native / concrete runs)
+			verifAssume(verifC17Valid(verifC17Keys[i], src.Hash, tgt.Hash, link.Signatures[i]))
 		case 2:
 			link.Signatures[i] = verifBytesN("forged", 64)
 		}
@@ -183,11 +239,17 @@ func VerifC17SupLink(n int) {
 		verifAssert(len(link.Signatures[v.order]) != 0, "empty-slot-never-counts")
 		verifAssert(v.order < len(verifC17Keys) && v.PubKey == verifC17Keys[v.order], "slot-belongs-to-the-validator-key")
 		verifAssert(v.SourceHash == src.Hash && v.TargetHash == tgt.Hash && v.SourceHeight == src.Height && v.TargetHeight == tgt.Height, "verification-is-for-this-link")
-		// the very signature carried in the slot verifies under that key for this link
-		chk := &verification{SourceHash: src.Hash, TargetHash: tgt.Hash, SourceHeight: src.Height, TargetHeight: tgt.Height,
-			Signature: link.Signatures[v.order], PubKey: verifC17Keys[v.order], order: v.order}
-		verifAssert(chk.verifySignature() == nil, "invalid-signature-never-counts")
+		// the very signature carried in the slot is that key's signature over
+		// sha3(source hash || target hash), decided independently of encodeMessage
+		verifAssert(verifC17Valid(verifC17Keys[v.order], src.Hash, tgt.Hash, link.Signatures[v.order]), "invalid-signature-never-counts")
 		verifReach("VerifC17SupLink:some-slot-counts")
+	}
+	// every genuine signature of an effective validator of the target's parent epoch counts
+	for i := 0; i < n; i++ {
+		if genuine[i] {
+			verifAssert(seen[i], "genuine-signature-of-effective-validator-counts")
+			verifReach("VerifC17SupLink:genuine-counts")
+		}
 	}
 	if len(vs) == 0 {
 		verifReach("VerifC17SupLink:nothing-counts")
@@ -201,7 +263,11 @@ func VerifC17Step(n int) {
 	e0 := verifU64("rootEpoch")
 	verifAssume(e0 >= 1 && e0 < 1<<32)
 	mk := func(i uint64, epoch uint64, parent *state.Checkpoint) *state.Checkpoint {
-		cp := &state.Checkpoint{Height: epoch * 100, Hash: bc.Hash{V0: i, V1: 0xc17}, Parent: parent, Votes: verifC17Votes(n)}
+		// only A (the target's parent) carries the validator set that counts for T
+		cp := &state.Checkpoint{Height: epoch * 100, Hash: bc.Hash{V0: i, V1: 0xc17}, Parent: parent, Votes: verifC17OldVotes(n)}
+		if i == 2 {
+			cp.Votes = verifC17Votes(n)
+		}
 		if parent != nil {
 			cp.ParentHash = parent.Hash
 		}
@@ -238,14 +304,25 @@ func VerifC17Step(n int) {
 	}
 	T.SupLinks = []*types.SupLink{old}
 
-	sender := verifChoice("sender", n+1) // n = a key that is not a validator
+	// sender < n: validator of the target's parent epoch (Order = sender);
+	// n: a key that is a validator nowhere; n+1: key 9, a validator of the other
+	// epochs (source of the skip link, fork, below root) but NOT of the target's parent epoch
+	sender := verifChoice("sender", n+2)
 	key := verifC17Keys[10]
+	keyIdx := 10
 	if sender < n {
-		key = verifC17Keys[sender]
+		keyIdx = sender
+	} else if sender == n+1 {
+		keyIdx = 9
 	}
+	key = verifC17Keys[keyIdx]
 	var sig []byte
-	if sender < n && verifChoice("sigKind", 2) == 0 {
-		sig = verifC17Genuine(sender, srcIdx) // the sender's real signature on S -> T
+	genuine := false
+	if keyIdx < 10 && verifChoice("sigKind", 2) == 0 {
+		sig = verifC17Genuine(keyIdx, srcIdx) // the sender's real signature on S -> T
+		genuine = true
+		// it is genuine over the documented digest (real ed25519 in native / concrete runs)
+		verifAssume(verifC17Valid(key, S.Hash, T.Hash, sig))
 	} else {
 		sig = verifBytesN("forged", 64)
 	}
@@ -274,16 +351,30 @@ func VerifC17Step(n int) {
 			count++
 		}
 		if now != occupied[i] {
+			// only a validator of the TARGET'S PARENT epoch fills a slot, and only its own
 			verifAssert(err == nil && sender < n && i == sender, "only-the-senders-own-slot-is-filled")
-			chk := &verification{SourceHash: S.Hash, TargetHash: T.Hash, SourceHeight: S.Height, TargetHeight: T.Height,
-				Signature: old.Signatures[i], PubKey: key, order: i}
-			verifAssert(chk.verifySignature() == nil, "invalid-signature-never-counts")
+			// ... with its signature over sha3(source hash || target hash), decided independently of encodeMessage
+			verifAssert(verifC17Valid(key, S.Hash, T.Hash, old.Signatures[i]), "invalid-signature-never-counts")
 			verifReach("VerifC17Step:vote-recorded")
 		}
 	}
 	if sender == n {
 		verifAssert(err != nil, "non-validator-is-rejected")
 		verifReach("VerifC17Step:non-validator")
+	}
+	if sender == n+1 {
+		verifAssert(err == errPubKeyIsNotValidator, "validator-of-another-epoch-is-rejected")
+		verifReach("VerifC17Step:other-epoch-validator")
+	}
+	if sender < n {
+		// a validator of the target's parent epoch is admitted whatever the source's epoch
+		// says; the only possible refusal is a signature that does not verify
+		verifAssert(err == nil || err == errVerifySignature, "validator-of-target-parent-epoch-is-admitted")
+		if genuine {
+			verifAssert(err == nil, "genuine-vote-is-accepted")
+			verifAssert(len(old.Signatures[sender]) != 0, "genuine-vote-is-recorded")
+			verifReach("VerifC17Step:genuine-accepted")
+		}
 	}
 
 	for i, cp := range all {
